@@ -149,10 +149,10 @@ theorem fillLoop_ge {c : Cfg} {thr h : Nat} (hge : ¬ h < thr) (src : List Nat) 
   cases src <;> simp [fillLoop, hge]
 
 /-- the threshold of `ChainCoderHeads::new` -/
-theorem thr_eq {c : Cfg} (hv : CValid c) :
+theorem thr_eq {c : Cfg} (hv : PrecOk c.W c.S c.P) :
     shlT c.S 1 (c.S - c.W - c.P) = 2^(c.S - c.W - c.P) ∧
     2^(c.S - c.W - c.P) * 2^c.W = 2^(c.S - c.P) ∧ 2^(c.S - c.P) ≤ 2^c.S ∧ 1 ≤ c.W := by
-  obtain ⟨hP1, hPB, hBW, hS⟩ := hv
+  obtain ⟨hP1, hPW, hS⟩ := hv
   refine ⟨shlT_one (by omega), ?_, pow_mono2 (by omega), by omega⟩
   rw [← Nat.pow_add]; congr 1; omega
 
@@ -170,7 +170,7 @@ theorem bitlen_pow_add {n v : Nat} (hv : v < 2^n) : bitlen (2^n + v) = n + 1 := 
 /-- `from_binary` on any word list: either not enough words, or a coder satisfying the
     invariant whose heads `into_binary` turns back into exactly the consumed words `D`
     (whatever has been pushed onto the compressed stack in between). -/
-theorem fromBinary_spec {c : Cfg} (hv : CValid c) {data : List Nat} (hd : Words c.W data)
+theorem fromBinary_spec {c : Cfg} (hv : PrecOk c.W c.S c.P) {data : List Nat} (hd : Words c.W data)
     {x : Coder} (h : fromBinary c data = some x) :
     Inv c x ∧ x.remainders = [] ∧
     ∃ D, data = D ++ x.compressed ∧
@@ -192,7 +192,7 @@ theorem fromBinary_spec {c : Cfg} (hv : CValid c) {data : List Nat} (hd : Words 
       rcases hub with hub | hub
       · rw [← hthr]; exact hub
       · rw [hub]
-        have : 2^c.W ≤ 2^(c.S - c.P) := pow_mono2 (by obtain ⟨_, _, _, hS⟩ := hv; omega)
+        have : 2^c.W ≤ 2^(c.S - c.P) := pow_mono2 (by obtain ⟨_, _, hS⟩ := hv; omega)
         omega
     refine ⟨⟨⟨Nat.le_refl 1, hWpos, hge, hhi⟩, hwr, Words.nil⟩, rfl, D, hD, ?_⟩
     intro K R
@@ -204,7 +204,7 @@ theorem fromBinary_spec {c : Cfg} (hv : CValid c) {data : List Nat} (hd : Words 
 
 /-! ## `from_compressed` / `into_compressed` -/
 
-theorem fromCompressed_spec {c : Cfg} (hv : CValid c) {data : List Nat} (hd : Words c.W data)
+theorem fromCompressed_spec {c : Cfg} (hv : PrecOk c.W c.S c.P) {data : List Nat} (hd : Words c.W data)
     {x : Coder} (h : fromCompressed c data = some x) :
     Inv c x ∧ x.remainders = [] ∧
     ∃ D, data = D ++ x.compressed ∧
@@ -232,7 +232,7 @@ theorem fromCompressed_spec {c : Cfg} (hv : CValid c) {data : List Nat} (hd : Wo
           rcases hub with hub | hub
           · rw [← hthr]; exact hub
           · rw [hub]
-            have : 2^c.W ≤ 2^(c.S - c.P) := pow_mono2 (by obtain ⟨_, _, _, hS⟩ := hv; omega)
+            have : 2^c.W ≤ 2^(c.S - c.P) := pow_mono2 (by obtain ⟨_, _, hS⟩ := hv; omega)
             omega
         refine ⟨⟨⟨Nat.le_refl 1, hWpos, hge, hhi⟩, hwr, Words.nil⟩, rfl, w0 :: D,
           by rw [hD]; rfl, ?_⟩
@@ -301,7 +301,7 @@ theorem drain_top_nonzero {W : Nat} (hW : 1 ≤ W) :
 
 /-- `from_remainders(into_remainders(x)) = x` up to the (emptied) compressed stack, also when
     further words `T` (e.g. the unused prefix) lie below the exported suffix. -/
-theorem intoRemainders_spec {c : Cfg} (hv : CValid c) {x : Coder} (hx : Inv c x) :
+theorem intoRemainders_spec {c : Cfg} (hv : PrecOk c.W c.S c.P) {x : Coder} (hx : Inv c x) :
     ∃ F, Words c.W F ∧
       intoRemainders c x = .ok (x.compressed, x.heads.compressed :: (F ++ x.remainders)) ∧
       ∀ T, fromRemainders c (x.heads.compressed :: (F ++ x.remainders ++ T))
